@@ -343,6 +343,9 @@ def crash_cases(prog, workdir, order="fifo", seed=0, ext=(), horizon_ms=60000, i
             sent = [r["uid"] for r in s.trace if r["e"] == "send_ext" and r["ok"]]
             pending_retry = any(tk.__class__.__name__ == "TickAddEvent" for r_ in en._RUNNERS.values()
                                 for (_a, _s, tk) in r_.scheduled_wakeups)
+            # a due retry already moved from the timer heap into the runner's in-memory tick buffer (not yet a persisted tick)
+            buffered_retry = any(tk.__class__.__name__ == "TickAddEvent" and (getattr(tk, "attempts", None) or 0) > 0
+                                 for r_ in en._RUNNERS.values() for tk in r_.tick_buffer)
             crashed = s.crashed
             q = s.basic._queues.get(hs.get("h1"))
             mailbox = q.receive_queue.qsize() if q is not None else 0
@@ -375,7 +378,8 @@ def crash_cases(prog, workdir, order="fifo", seed=0, ext=(), horizon_ms=60000, i
         ends = last["k"] in ("cancel", "timeout") or (
             last["k"] == "result" and any(x["r"] == "ret" and x["ty"] == "Stop" for x in last["res"]))
         cases.append({"e": "case", "k": k, "ref": ref, "res": res, "reran": bool(reran), "last_tick": last["k"],
-                      "prefix_ends_run": bool(ends), "pending_retry": bool(pending_retry), "mailbox": int(mailbox),
+                      "prefix_ends_run": bool(ends), "pending_retry": bool(pending_retry), "buffered_retry": bool(buffered_retry),
+                      "mailbox": int(mailbox),
                       "last_has_output": last["k"] == "result" and any(
                           x["r"] == "ret" and x["ty"] not in ("None", "Stop", "Junk") for x in last["res"]),
                       "run": 1, "seq": k, "t": 0})
